@@ -603,6 +603,11 @@ def body(ctx):
         # the model receives the first two columns (a missing second column as zeros; unused when the width is wrong)
         m_pts = [(float(r_[0]), float(r_[1]) if tw >= 2 else 0.0) for r_ in pa]
         m_poly = [(float(r_[0]), float(r_[1]) if pw >= 2 else 0.0) for r_ in ya]
+        # which exception type reports a wrong shape / an empty polygon, and which of the two is reported first, is
+        # incidental (moving a guard between Cython and Python changes it): both are compared as "rejected"; the
+        # dtype and length guards of the caller's answer vector are compared by name and must come first
+        if impl.startswith("err") and impl not in ("err insideDtype", "err insideLength"):
+            impl = "err rejected"
         add(f"pipcall {C.f2h(ATOL)} {pw} {C.fmat(m_poly)} {tw} {C.fmat(m_pts)} {ilen} {i32}", impl,
             {"malformed": kind, "points": m_pts, "polygon": m_poly, "points_width": tw, "polygon_width": pw,
              "inside_len": ilen, "inside_int32": bool(i32)})
@@ -1000,6 +1005,8 @@ def body(ctx):
     # ---------------------------------------------------------------- correspondence
     replies = lean.ask(reqs)
     for req, impl, rep, case in zip(reqs, impls, replies, cases):
+        if req.startswith("pipcall") and rep in ("err shapeAssert", "err emptyPolygon"):
+            rep = "err rejected"
         ctx.compare("C15", {"request": req[:2000], **case}, impl, rep)
     qrep = lean.ask(qreqs)
     njudged = 0
